@@ -66,10 +66,9 @@ var propRules = map[string]*PropSpec{
 		Technique:  techOwn,
 	},
 	"C03": {
-		Rules:       []string{"A1.api32", "A1.kernel", "F1", "F11", "G1", "F3.32", "F3.64", "A1.api64", "U6", "EQ1", "IDX1", "F2", "U5", "CUR1", "LOW1", "U11", "U12", "TWIN1"},
+		Rules:       []string{"A1.api32", "A1.kernel", "F1", "F11", "G1", "F3.32", "F3.64", "A1.api64", "U6", "EQ1", "IDX1", "F2", "U5", "CUR1", "LOW1", "U11", "U12"},
 		Explanation: explBase + " C03: the clause 'queries never modify the bitmap' is decided for every exported read-only function; kind dispatch of the query paths is exhaustive.",
 		Decided: []string{
-			"the batch methods of the per-container iterators and their 64-bit twins (nextMany / nextMany64) are the same code up to the element width",
 			"in the 64-bit bitmap a 64-bit quantity is cut to 32 bits only if it is a widened / shifted / masked 32-bit value or an upper-bound comparison on it dominates the cut (Select's running index against the bucket cardinality)",
 			"end-1 of a caller-supplied unsigned range end is computed only where the end is known to be positive (behind the empty-range exit, a zero test or a clamp)",
 			"Rank asks a chunk (bucket) found by scanning positions about the low half of its argument only where the scan has established that the chunk's key equals the argument's high half",
@@ -83,10 +82,9 @@ var propRules = map[string]*PropSpec{
 		Technique:  techOwn,
 	},
 	"C04": {
-		Rules:       []string{"F7", "F1", "A1.api32", "F12", "U4", "R2", "LP1", "U5", "CUR1", "CUR2", "CUR3", "CUR4", "CUR5", "U10", "TWIN1"},
+		Rules:       []string{"F7", "F1", "A1.api32", "F12", "U4", "R2", "LP1", "U5", "CUR1", "CUR2", "CUR3", "CUR4", "CUR5", "U10"},
 		Explanation: explBase + " C04: the early-termination clause and the purity of iteration are decided; kind dispatch in iterator init / Iterate / Ranges is exhaustive.",
 		Decided: []string{
-			"the batch methods of the per-container iterators and their 64-bit twins (nextMany / nextMany64) are the same code up to the element width",
 			"no 16-bit sum or difference is compared as it is (it wraps at 65535 / 0); start+length of one interval and two triaged key±1 comparisons between strictly ordered keys are the only sites",
 			"the batch iterators ask the inner iterator for more only behind a test that the caller's buffer has room, so that a zero answer can only mean an exhausted chunk",
 			"an iterator glues the key of the current chunk/bucket to what the inner iterator yields only when no reload of the cursor lies between the two reads",
@@ -269,10 +267,9 @@ var propRules = map[string]*PropSpec{
 		Technique:  techMix,
 	},
 	"C17": {
-		Rules:       []string{"A2.64", "A3.64", "F3.64", "F5", "F9", "A1.api64", "A5", "F12", "P6", "P2", "U1", "F10", "EQ1", "R2", "IDX1", "A2.stale", "LEN1", "F5.neg", "R3", "U5", "CUR1", "CUR2", "CUR3", "CUR4", "GAL1", "CACHE1", "CUR5", "SW1", "LOW1", "U11", "U12", "IX0", "TWIN1"},
+		Rules:       []string{"A2.64", "A3.64", "F3.64", "F5", "F9", "A1.api64", "A5", "F12", "P6", "P2", "U1", "F10", "EQ1", "R2", "IDX1", "A2.stale", "LEN1", "F5.neg", "R3", "U5", "CUR1", "CUR2", "CUR3", "CUR4", "GAL1", "CACHE1", "CUR5", "SW1", "LOW1", "U11", "U12", "IX0"},
 		Explanation: explBase + " C17: the 64-bit bitmap's bucket table obeys the same ownership discipline (bucket = container), drops emptied buckets, inserts at the right index and its aggregates return fresh bitmaps.",
 		Decided: []string{
-			"the batch methods of the per-container iterators and their 64-bit twins (nextMany / nextMany64) are the same code up to the element width",
 			"exported functions read a fixed position of a caller's slice (the first value of AddMany, the first bitmap of an aggregate) only behind a test of its length",
 			"in the 64-bit bitmap a 64-bit quantity is cut to 32 bits only if it is a widened / shifted / masked 32-bit value or an upper-bound comparison on it dominates the cut (Select's running index against the bucket cardinality)",
 			"end-1 of a caller-supplied unsigned range end is computed only where the end is known to be positive (behind the empty-range exit, a zero test or a clamp)",
